@@ -5,7 +5,7 @@ BHi <- BHiA
 MaxT = 14
 MaxReq = 3
 MaxLookups = 6
-MaxDur = 1
+MaxDur = 4
 Mutant = 0
 INIT Init
 NEXT Next
